@@ -470,6 +470,26 @@ Definition vi_paste_reg (s : st) (r mode arg : Z) : out :=
     end
   else ok s.
 
+(* s / C / S (cc): delete, store, enter insert mode.  The session model stays in
+   navigation mode, so each of them is modelled together with the Escape that
+   follows it: _back_to_navigation moves the cursor one to the left on its line. *)
+Definition vi_escape (o : out) : out :=
+  let '(code, s) := o in
+  if code =? 0 then ok (move_to s (bcur (sb s) + get_cursor_left_position (cur_doc s) 1)) else o.
+
+Definition vi_subst_core (s : st) (arg : Z) : out :=
+  kill_with s (delete (sb s) arg) (fun x => x).
+Definition vi_bigC_core (s : st) : out :=
+  kill_with s (delete (sb s) (get_end_of_line_position (cur_doc s))) (fun x => x).
+Definition vi_bigS_core (s : st) : out :=
+  let d := cur_doc s in
+  let s1 := with_ring s (ring_set (sring s) (mkclip (current_line d) LINES)) in
+  let s2 := move_to s1 (bcur (sb s1) + get_start_of_line_position d true) in
+  match delete (sb s2) (get_end_of_line_position (cur_doc s2)) with
+  | Ok b' _ => ok (upd s2 b')
+  | Err c b' => (c, upd s2 b')
+  end.
+
 (* A visual-mode command: the selection [sel] is active, the cursor is the
    other end.  key: 0 = d, 1 = y, 2 = x, 3 = "r d, 4 = "r y *)
 Definition vi_visual (s : st) (sel : Z * Z) (key r : Z) : out :=
@@ -533,7 +553,8 @@ Inductive cmd :=
 | Cpr                                     (* a cursor position report arrives (Keys.CPRResponse) *)
 | ViX | ViBigX | ViD | ViDD | ViYY | ViP | ViBigP
 | ViPasteReg (r : Z) (before : bool)
-| ViVisual (orig ty key r : Z).
+| ViVisual (orig ty key r : Z)
+| ViSubst | ViChangeEol | ViChangeLine.   (* s Esc, C Esc, S Esc *)
 
 Definition cmd_id (c : cmd) : Z :=
   match c with
@@ -544,6 +565,7 @@ Definition cmd_id (c : cmd) : Z :=
   | ViX => 31 | ViBigX => 32 | ViD => 33 | ViDD => 34 | ViYY => 35 | ViP => 36 | ViBigP => 37
   | ViPasteReg _ b => if b then 39 else 38
   | ViVisual _ _ k _ => 40 + k
+  | ViSubst => 51 | ViChangeEol => 52 | ViChangeLine => 53
   end.
 Definition ARG_ID : Z := 99.
 (* C-w reaches two different Binding objects: unix-word-rubout (basic.py) without
@@ -563,7 +585,8 @@ Definition insert_only (c : cmd) : bool :=
   end.
 Definition is_vi_cmd (c : cmd) : bool :=
   match c with
-  | ViX | ViBigX | ViD | ViDD | ViYY | ViP | ViBigP | ViPasteReg _ _ | ViVisual _ _ _ _ => true
+  | ViX | ViBigX | ViD | ViDD | ViYY | ViP | ViBigP | ViPasteReg _ _ | ViVisual _ _ _ _
+  | ViSubst | ViChangeEol | ViChangeLine => true
   | _ => false
   end.
 
@@ -598,6 +621,9 @@ Definition exec (s : st) (c : cmd) (arg : Z) (rep : bool) : out :=
   | ViBigP => buf_paste s (ring_get (sring s)) VI_BEFORE arg
   | ViPasteReg r b => vi_paste_reg s r (if b then VI_BEFORE else VI_AFTER) arg
   | ViVisual orig ty key r => vi_visual s (orig, ty) key r
+  | ViSubst => vi_escape (vi_subst_core s arg)
+  | ViChangeEol => vi_escape (vi_bigC_core s)
+  | ViChangeLine => vi_escape (vi_bigS_core s)
   end.
 
 Definition step (s : st) (c : cmd) (argp : option Z) : out :=
@@ -671,6 +697,7 @@ Definition dec_cmd (x : sx) : option (cmd * option Z) :=
           | 16, [] => r CtrlG | 17, [] => r YankCxry | 18, [] => r CutCxrk
           | 19, [A v] => r (SetCursor v)
           | 21, [] => r Cpr
+          | 51, [] => r ViSubst | 52, [] => r ViChangeEol | 53, [] => r ViChangeLine
           | 31, [] => r ViX | 32, [] => r ViBigX | 33, [] => r ViD | 34, [] => r ViDD
           | 35, [] => r ViYY | 36, [] => r ViP | 37, [] => r ViBigP
           | 38, [A rg] => r (ViPasteReg rg false)
